@@ -870,6 +870,22 @@ struct Exec {
             for (int c = 0; c < w.ncls; ++c)
                 for (int a = 0; a < (int)w.ids[c].size(); ++a)
                     probes.push_back(ops.class_id(c, a));
+            if (plan.prop == "C07") {
+                // "exactly as if the current registrations had been made in
+                // a fresh process": what the checked hash answers for the
+                // ids of classes that are not (or no longer) registered is
+                // part of the outcome table the history differential compares
+                auto& table = res.tables[s.name];
+                for (int c = 0; c < w.ncls; ++c)
+                    for (int a = 0; a < (int)w.ids[c].size(); ++a) {
+                        tid id = ops.class_id(c, a);
+                        if (registered.count(id) || id == ~(tid)0)
+                            continue;
+                        table["u" + std::to_string(c) + ":" +
+                              std::to_string(a)] =
+                            ops.lookup(id).rejected ? "REJ" : "ACC";
+                    }
+            }
             probes.push_back(0);
             probes.push_back(1);
             probes.push_back(OBJ_STATIC_ID);
